@@ -357,7 +357,18 @@ func (c *Check) callbackRules(prefix string) {
 			continue
 		}
 		okFilter := false
-		for _, pa := range c.P.PathsOf(f) {
+		// the accumulation is written in the function itself or in a closure it hands to the scan
+		units := []*Func{f}
+		for _, g := range c.P.Funcs {
+			if g.Parent == f {
+				units = append(units, g)
+			}
+		}
+		var allPaths []*Path
+		for _, g := range units {
+			allPaths = append(allPaths, c.P.PathsOf(g)...)
+		}
+		for _, pa := range allPaths {
 			for i, ev := range pa.Events {
 				if ev.Kind == EvAssign && ev.Val != nil && ev.Val.Op == "append" && len(ev.Val.A) == 2 && strings.HasSuffix(ev.Val.A[1].Op, ".Response.Output") {
 					for _, fa := range pa.FactsBefore(i) {
@@ -458,7 +469,7 @@ func (c *Check) cleanRules(rule string) {
 		ok := k13 != nil && k16 != nil && k13.Eq(k16)
 		if ok {
 			_, ok = k13.Match("(slice $K #1 _)")
-			ok = ok && k13.ContainsOp("types.GetRequestSubspaceByReqCtx")
+			ok = ok && c.P.scansFamily(k13, "0x13")
 		}
 		c.req(ok, rule, unitConstruct(clean, "per-key"), pa.RetPos, "each iteration deletes the request and the response stored under the scanned request key's id")
 	}
